@@ -192,6 +192,9 @@ def nativeOfScalar (size : Nat) (signed : Bool) : ITy :=
 /-- `resolve` maps the path of a custom type to the user-type number (the corpus' type table);
     it stands for the identity of `syn::Type` values and is not part of the macro. -/
 def parseField (resolve : List String → Nat) (baseDataSize : Nat) (f : FieldSyn) : Except Reject FieldDef := do
+  -- `length.parse::<usize>().unwrap_or_else(|_| panic!(…))`
+  if (match f.count with | some c => decide (c ≥ 2 ^ 64) | none => false) then
+    .error (.macroPanic "array length is not a valid number") else
   let (fromDT, isSigned) ← parseScalarField f.ty
   let unsignedFieldType : Option ITy :=
     if isSigned then some (ITy.unsignedOf (fromDT.getD 0)) else none
